@@ -1,3 +1,6 @@
+#include <cstdlib>
+#include <limits>
+
 #include <occa/internal/utils/string.hpp>
 #include <occa/internal/lang/modes/withLauncher.hpp>
 #include <occa/internal/lang/modes/okl.hpp>
@@ -480,7 +483,11 @@ namespace occa {
                 if(s.find("_occa_tiled_") != std::string::npos) {
                   size_t tile_size = s.find_first_of("123456789");
                   OCCA_ERROR("@tile size is undefined!",tile_size != std::string::npos);
-                  kernelInnerDims[innerIndex] = std::stoi(s.substr(tile_size));
+                  // std::stoi throws std::out_of_range for a tile size that does not fit an int
+                  const long tileSize = std::strtol(s.c_str() + tile_size, NULL, 10);
+                  OCCA_ERROR("@tile size is out of range",
+                             (0 < tileSize) && (tileSize <= (long) std::numeric_limits<int>::max()));
+                  kernelInnerDims[innerIndex] = (int) tileSize;
                 } else {
                   //loop bounds are unknown at compile time
                   addLaunchBoundsAttribute=false;
